@@ -21,6 +21,7 @@ Open Scope N_scope.
 From BCL Require Import Model.Api Model.Compile Spec.Syntax Spec.AstSem Proofs.ParserInvProofs Proofs.T2Expr Proofs.T2Proofs Proofs.T1Expr Proofs.T1Proofs Proofs.Language.
 From BCL Require Import Proofs.VerifyFrag Proofs.CompileVerifies.
 From BCL Require Import Proofs.Limits.
+From BCL Require Import Proofs.ParserTotal Proofs.SizeBounds.
 
 Theorem C10_check_sound : forall p fuel tr, verify p = true ->
   let (m, r) := run_fuel fuel p tr (init_vm p) in
@@ -127,6 +128,20 @@ Theorem C10_no_limit_below : forall p d b, peak p = Some (d, b) -> d <= stackSiz
   forall fuel tr, ~ limit_res (snd (run_fuel fuel p tr (init_vm p))).
 Proof. first [exact Limits.no_limit_below | apply Limits.no_limit_below]. Qed.
 Print Assumptions C10_no_limit_below.
+
+(* every accepted source shorter than 2^56 bytes compiles to code the verifier accepts *)
+Theorem C10_parsed_verifies_input : forall name src,
+  nlen src < 2^56 -> pr_ok (parse_whole name src) = true ->
+  verify (pr_prog (parse_whole name src)) = true.
+Proof. first [exact SizeBounds.parsed_verifies_input | apply SizeBounds.parsed_verifies_input]. Qed.
+Print Assumptions C10_parsed_verifies_input.
+
+Theorem C10_parsed_peak_input : forall name src,
+  let pr := parse_whole name src in
+  nlen src < 2^56 -> pr_ok pr = true ->
+  exists p, ast_program (fst (lex [src])) = Some p /\ peak (pr_prog pr) = Some (need_prog p, nest_prog p).
+Proof. first [exact SizeBounds.parsed_peak_input | apply SizeBounds.parsed_peak_input]. Qed.
+Print Assumptions C10_parsed_peak_input.
 
 Example C10_example :
   verify (pr_prog (parse_whole (bs "input") (bs "var x = 1 and 2 or 3 def b { f = x and x } print x"))) = true.
